@@ -286,8 +286,8 @@ def signature_of(desc):
 # ---------------------------------------------------------------- part B1: targeted tests
 
 
-def run_pair(concbin, comp, a, b, iters, seed, single=False, full=False):
-    cmd = [concbin, "pair", "-comp", comp, "-a", a, "-b", b, "-iters", str(iters), "-seed", str(seed)]
+def run_pair(concbin, comp, a, b, iters, seed, single=False, full=False, calls=3):
+    cmd = [concbin, "pair", "-comp", comp, "-a", a, "-b", b, "-iters", str(iters), "-seed", str(seed), "-calls", str(calls)]
     if single:
         cmd.append("-single")
     env = {"GORACE": GORACE, "GOMAXPROCS": "4"}
@@ -536,8 +536,8 @@ def run_check(pid, tier, seed, replay=None):
             continue
         # deadlock / bad unlock / leaked lock / livelock in the model: run exactly these methods under the watchdog
         comp, a, b = f["comp"], f["a"], f["b"]
-        pr = run_pair(concbin, comp, a, b or a, min(T["pair_iters"], 2000), seed, single=(f.get("threads", 1) == 1 or not b),
-                      full=att_full)
+        one = f.get("threads", 1) == 1 or not b
+        pr = run_pair(concbin, comp, a, b or a, 200 if one else 400, seed, single=one, full=att_full, calls=300)
         if pr["unsupported"]:
             raise lib.InfraError("model-level %s in %s (%s): no targeted driver: %s" % (f["kind"], comp, f["detail"][:300], pr["stderr"][-300:]))
         if pr["blocked"] or pr["fatal"] or pr["rc"] not in (0, 66):
@@ -654,7 +654,7 @@ def finish(run, tier, seed, t0, model_findings, att_full, skipped_histories=Fals
         cc = run.cov.get("driver:" + drv, {})
         if cc.get("histories", 0) == 0 and not run.violations:
             raise lib.InfraError("vacuous run: no history recorded for driver %s" % drv)
-        if cc.get("overlapping", 0) * 4 < cc.get("histories", 0) and not run.violations:
+        if cc.get("overlapping", 0) * 10 < cc.get("histories", 0) and not run.violations:
             raise lib.InfraError("vacuous run: too few histories of %s had overlapping calls (%s of %s)"
                                  % (drv, cc.get("overlapping"), cc.get("histories")))
     cov = {
@@ -757,7 +757,14 @@ def check_on(repo, tier="quick", seed=1):
 
 
 def selftest():
-    """Binding demonstration. Returns a list of (name, ok, detail)."""
+    """Binding demonstration (./check selftest locks). True iff every item behaves as expected."""
+    items = selftest_items()
+    for name, ok, detail in items:
+        lib.log("selftest locks: %-100s %s%s" % (name, "ok" if ok else "FAILED", "" if ok else "\n    " + detail))
+    return all(ok for _, ok, _ in items)
+
+
+def selftest_items():
     out = []
     # 0. the hand-written toy program: race, then deadlock
     ex = Extraction(lib.SPEC_DIR, {"components": [], "sites": []})
